@@ -229,6 +229,12 @@ def model_expr(spec):
             f"{coq_list(op_coq(o) for o in spec['ops'])}")
 
 
+def class_expr(spec):
+    c = acetext.cfg_coq(spec["platform"], "0", spec["port_nr"], spec["protocol_nr"])
+    return (f"history_in_class {c} \"A\" {coq_list(coq_str(l) for l in spec['body'])} "
+            f"{coq_list(op_coq(o) for o in spec['ops'])}")
+
+
 def cases_for(ca, specs):
     out = []
     for spec in specs:
